@@ -205,8 +205,93 @@ Proof.
     + rewrite comps_none. split; [intros H; exfalso; apply H; reflexivity | intros (H & _); discriminate].
 Qed.
 
+(* ---- one component ----------------------------------------------------------------------------------- *)
+Lemma throws_check1 p b tag v : throws (check1 R Rltb p b tag v) <-> (p = Strict /\ outside b v).
+Proof.
+  destruct p.
+  - destruct (warning_scalar b tag v) as (A & _). split; [tauto | intros (H & _); discriminate].
+  - destruct (strict_scalar b tag v) as (A & _). tauto.
+  - rewrite (none_scalar b tag v). split; [intros H; exfalso; apply H; reflexivity | intros (H & _); discriminate].
+Qed.
+
+Lemma throws_check_component p b var k x :
+  throws (check_component R Rltb p b var k x) <-> (p = Strict /\ selection_outside b (Some k) x).
+Proof.
+  unfold selection_outside, selected, check_component. destruct x as [v|vs].
+  - rewrite throws_check1. split.
+    + intros (H & Ho). split; auto. exists v. simpl; auto.
+    + intros (H & (w & [->|[]] & Ho)). auto.
+  - destruct (nth_error vs k) as [v|].
+    + rewrite throws_check1. split.
+      * intros (H & Ho). split; auto. exists v. simpl; auto.
+      * intros (H & (w & [->|[]] & Ho)). auto.
+    + split.
+      * intros H. exfalso. apply H. reflexivity.
+      * intros (_ & (w & [] & _)).
+Qed.
+
+(* a check restricted to component k depends on that component only, names it, and follows the policy *)
+Lemma component_only p b var k vs vs' : nth_error vs k = nth_error vs' k ->
+  check_component R Rltb p b var k (VTensor vs) = check_component R Rltb p b var k (VTensor vs').
+Proof. intros H. unfold check_component. rewrite H. reflexivity. Qed.
+
+Lemma component_check b var k vs v : nth_error vs k = Some v ->
+  (throws (check_component R Rltb Strict b var k (VTensor vs)) <-> outside b v) /\
+  (outside b v -> thrown (check_component R Rltb Strict b var k (VTensor vs)) = Some (Ev (kind_of R b) (var, S k))) /\
+  ~ throws (check_component R Rltb Warning b var k (VTensor vs)) /\
+  (warns_something (check_component R Rltb Warning b var k (VTensor vs)) <-> outside b v) /\
+  (outside b v -> warns (check_component R Rltb Warning b var k (VTensor vs)) = [Ev (kind_of R b) (var, S k)]) /\
+  silent (check_component R Rltb NoPolicy b var k (VTensor vs)).
+Proof.
+  intros H. unfold check_component. rewrite H.
+  destruct (strict_scalar b (var, S k) v) as (A1 & _ & A3).
+  destruct (warning_scalar b (var, S k) v) as (B1 & B2 & B3).
+  pose proof (none_scalar b (var, S k) v) as C1.
+  repeat split; try tauto; auto; try (apply A1); try (apply B2).
+Qed.
+
+(* ---- tensors with a single component outside ------------------------------------------------------------ *)
+Lemma outside_indices_nil b i vs :
+  (forall k, (k < length vs)%nat -> ~ outside b (nth k vs 0)) -> outside_indices b i vs = [].
+Proof.
+  revert i; induction vs as [|v r IH]; intros i H; simpl; auto.
+  assert (E : oob R Rltb b v = false) by (apply oob_outside_false; apply (H 0%nat); simpl; lia).
+  rewrite E. simpl. apply IH. intros k Hk. apply (H (S k)). simpl; lia.
+Qed.
+
+Lemma outside_indices_single b i vs j : only_outside b vs j -> outside_indices b i vs = [S (i + j)].
+Proof.
+  revert i j; induction vs as [|v r IH]; intros i j (Hj & Ho & Hn); simpl in *; [lia|].
+  destruct j as [|j].
+  - apply oob_outside in Ho. rewrite Ho. simpl. f_equal; [f_equal; lia|].
+    apply outside_indices_nil. intros k Hk. apply (Hn (S k)); lia.
+  - assert (E : oob R Rltb b v = false) by (apply oob_outside_false; apply (Hn 0%nat); lia).
+    rewrite E. simpl. rewrite (IH (S i) j).
+    + do 2 f_equal. lia.
+    + repeat split; [lia | exact Ho |]. intros k Hk Hkj. apply (Hn (S k)); lia.
+Qed.
+
+Lemma only_first_outside b vs j : only_outside b vs j -> first_outside b vs j.
+Proof.
+  intros (Hj & Ho & Hn). repeat split; auto. intros k Hk. apply Hn; lia.
+Qed.
+
+Lemma tensor_single_violation b var vs j : only_outside b vs j ->
+  thrown (check_tensor R Rltb Strict b var vs) = Some (Ev (kind_of R b) (var, S j)) /\
+  warns (check_tensor R Rltb Warning b var vs) = [Ev (kind_of R b) (var, S j)] /\
+  thrown (check_tensor R Rltb Warning b var vs) = None /\
+  check_tensor R Rltb NoPolicy b var vs = ok.
+Proof.
+  intros H. unfold check_tensor. split; [|split; [|split]].
+  - destruct (comps_strict b var 0 vs) as (_ & Ht). apply Ht. exists j. split; [now apply only_first_outside | reflexivity].
+  - rewrite comps_warning_list, (outside_indices_single b 0 vs j H). reflexivity.
+  - apply comps_warning_no_throw.
+  - apply comps_none.
+Qed.
+
 (* ---- emitted code ------------------------------------------------------------------------------------ *)
-Definition violated (e : env R) (c : call R) : Prop := value_outside (c_bounds R c) (e (c_var R c) (c_plus_d R c)).
+Definition violated (e : env R) (c : call R) : Prop :=
+  selection_outside (c_bounds R c) (c_comp R c) (e (c_var R c) (c_plus_d R c)).
 
 Lemma exec_throws q d2 p e cs :
   throws (exec R Rltb q d2 p e cs) <->
@@ -214,11 +299,15 @@ Lemma exec_throws q d2 p e cs :
 Proof.
   unfold exec. rewrite throws_seqs. split.
   - intros (t & Hin & Ht). apply in_map_iff in Hin. destruct Hin as (c & <- & Hc).
-    unfold exec_call in Ht. apply throws_check_value in Ht. destruct Ht as (Hp & Hv).
-    exists c. split; auto. split; auto. destruct (c_phys R c); auto.
+    exists c. split; [exact Hc|]. unfold violated. unfold exec_call in Ht. revert Ht.
+    destruct (c_comp R c) as [k|]; intros Ht;
+      [apply throws_check_component in Ht | apply throws_check_value in Ht];
+      destruct Ht as (Hp & Hv); (split; [|exact Hv]); destruct (c_phys R c); auto.
   - intros (c & Hc & Hp & Hv). exists (exec_call R Rltb q d2 p e c). split; [now apply in_map|].
-    unfold exec_call. apply throws_check_value. split; auto.
-    destruct (c_phys R c); auto. destruct Hp; [discriminate | auto].
+    unfold exec_call. unfold violated in Hv. revert Hv.
+    destruct (c_comp R c) as [k|]; intros Hv;
+      [apply throws_check_component | apply throws_check_value]; (split; [|exact Hv]);
+      destruct (c_phys R c); auto; (destruct Hp as [Hp|Hp]; [discriminate Hp | exact Hp]).
 Qed.
 
 Lemma exec_call_phys_policy q d2 p1 p2 e c : c_phys R c = true ->
